@@ -169,19 +169,21 @@ def index_relation(edges, base_act):
     return ix
 
 
-def classify(mm, dev_ix, base_act, proj, same_result):
+def classify(mm, dev_ix, base_act, proj, same_result, ideal_ix=None):
     """mm: mismatch record of a harness {s, a, real_t, real_res, ...}; dev_ix: {dev name: index_relation(...)}.
-    Returns the list of deviations whose relation contains the transition the real code took."""
+    Returns the list of deviations whose relation contains the transition the real code took.  A transition that the
+    ideal relation contains as well is not explained by any deviation (the deviation relations share all unaffected
+    transitions with the ideal one): such a mismatch stays unexplained."""
     if "s" not in mm or "a" not in mm:
         return []
     key = (vf.canon(mm["s"]), vf.canon(base_act(mm["a"])))
-    hits = []
-    for dev, ix in dev_ix.items():
-        for e in ix.get(key, []):
-            if vf.canon(proj(e["t"])) == vf.canon(mm["real_t"]) and same_result(e["a"], mm):
-                hits.append(dev)
-                break
-    return hits
+    rt = vf.canon(mm["real_t"])
+
+    def has(ix):
+        return any(vf.canon(proj(e["t"])) == rt and same_result(e["a"], mm) for e in ix.get(key, []))
+    if ideal_ix is not None and has(ideal_ix):
+        return []
+    return [dev for dev, ix in dev_ix.items() if has(ix)]
 
 
 # ------------------------------------------------------------------ test binaries
@@ -269,3 +271,62 @@ def replay_parallel(ctx, binpath, run, doc, tag, nproc=4, env=None, timeout=1500
 
 def total(summ, key):
     return sum(s.get(key, 0) for s in summ)
+
+
+# ------------------------------------------------------------------ several TLC runs side by side
+def tlc_many(ctx, jobs, timeout=1800):
+    """jobs: list of dict(module, cfg (text), name, workers=2, heap="4g", expect_violation=False).  Runs them
+    concurrently (the small sensitivity runs cost mostly JVM start-up) and returns the TLCResults in order.
+    Same conventions as vf.Ctx.tlc: Infra on parse errors / unfinished runs, violations are returned."""
+    import subprocess, shutil, glob, time
+    from concurrent.futures import ThreadPoolExecutor
+
+    def one(job):
+        d = ctx.scratch("tlcp_" + job["name"])
+        for f in glob.glob(os.path.join(vf.SPEC, "*")):
+            if os.path.isfile(f):
+                shutil.copy(f, d)
+        with open(os.path.join(d, "MC.cfg"), "w") as f:
+            f.write(job["cfg"])
+        tracefile = os.path.join(d, "cex.json")
+        cmd = ["java", "-XX:+UseParallelGC", "-Xss64m", "-Xmx%s" % job.get("heap", "4g"), "-cp", vf.TLA_CP, "tlc2.TLC",
+               "-config", "MC.cfg", "-metadir", os.path.join(d, "states"), "-workers", str(job.get("workers", 2)),
+               "-noGenerateSpecTE", "-deadlock", "-dumpTrace", "json", tracefile, job["module"] + ".tla"]
+        e = dict(os.environ)
+        e.pop("JAVA_TOOL_OPTIONS", None)
+        t = time.time()
+        try:
+            p = subprocess.run(cmd, cwd=d, env=e, stdout=subprocess.PIPE, stderr=subprocess.STDOUT, timeout=timeout,
+                               text=True, errors="replace")
+        except subprocess.TimeoutExpired:
+            raise vf.Infra("TLC timeout on %s/%s" % (job["module"], job["name"]))
+        res = vf.TLCResult()
+        res.rc, res.out, res.wall = p.returncode, p.stdout, time.time() - t
+        vf.parse_tlc_output(p.stdout, res)
+        if os.path.exists(tracefile):
+            try:
+                with open(tracefile) as f:
+                    res.trace = json.load(f)
+            except Exception:
+                res.trace = None
+        bad = None
+        for pat in ("Parsing or semantic analysis failed", "java.lang.OutOfMemoryError", "StackOverflowError",
+                    "TLC threw an unexpected exception", "Error: TLC encountered", "was not found", "Error: Evaluating",
+                    "Error: The configuration file", "Error: In evaluation", "Error: Attempted to", "Error: The invariant",
+                    "Error: TLC was unable", "Unknown operator", "Error: Parsing"):
+            if pat in p.stdout:
+                bad = pat
+                break
+        if (bad and res.violated is None) or (not res.ok and res.violated is None):
+            ctx._keep_log(d, p.stdout, job["name"])
+            raise vf.Infra("TLC failure (%s) on %s/%s:\n%s" % (bad or "did not finish", job["module"], job["name"],
+                                                             "\n".join(p.stdout.splitlines()[-40:])))
+        ctx.log("TLC %s/%s: %d generated, %d distinct, %d edges, %.1fs%s" % (
+            job["module"], job["name"], res.generated, res.distinct, len(res.edges), res.wall,
+            (" VIOLATED " + str(res.violated)) if res.violated else ""))
+        if res.violated and not job.get("expect_violation"):
+            ctx._keep_log(d, p.stdout, job["name"])
+        return res
+
+    with ThreadPoolExecutor(max_workers=max(1, min(len(jobs), 6))) as ex:
+        return list(ex.map(one, jobs))
